@@ -393,6 +393,20 @@ class Parser:
             self.i += 1
             close = ")" if self.next()[1] == "(" else "]"
             return ("macro", segs[-1], self.args(close))
+        if self.at("{") and not nostruct and segs[-1][0].isupper() and \
+                (self.peek(1)[1] == "}" or (self.peek(1)[0] == "id" and self.peek(2)[1] in (":", ",", "}"))):
+            self.i += 1
+            fields = []
+            while not self.at("}"):
+                fname = self.ident()
+                if self.eat(":"):
+                    fields.append((fname, self.expr()))
+                else:
+                    fields.append((fname, ("var", fname)))
+                if not self.eat(","):
+                    break
+            self.expect("}")
+            return ("struct", segs, fields)
         if len(segs) == 1:
             return ("var", segs[0])
         return ("path", segs)
@@ -512,6 +526,9 @@ def const_types():
 # --------------------------------------------------------------------------------------------
 # translation
 # --------------------------------------------------------------------------------------------
+LEAN_KEYWORDS = set("""section namespace end open at from fun let in if then else match with do have show by instance
+structure class def theorem variable universe import export prefix infix notation macro syntax where deriving mutual
+private protected local attribute example abbrev inductive opaque axiom partial unsafe return for unless""".split())
 WIDTH = {"u8": 8, "u16": 16, "u32": 32, "u64": 64}
 INTS = set(WIDTH) | {"usize", "int"}   # "int": an integer whose type the subset does not need to know (treated as usize)
 
@@ -522,6 +539,8 @@ def lean_ty(t):
         return "Nat"
     if t == "bool":
         return "Bool"
+    if t == "Section":
+        return "Section"
     if t in ("&[u8]", "&mut[u8]", "Vec<u8>", "&Vec<u8>", "bytes"):
         return "Bytes"
     if t == "()":
@@ -541,6 +560,8 @@ def norm_ty(t):
     m = re.fullmatch(r"Result<(.*),Error>", t)
     if m:
         return norm_ty(m.group(1))
+    if t in ("Self", "ParsedPacket"):
+        return "struct " + t
     return t
 
 
@@ -569,7 +590,7 @@ class Ctx:
         return "%s_%d" % (base, self.fresh)
 
     def declare(self, env, name, ty, mut=False):
-        lean = name
+        lean = name + "_" if name in LEAN_KEYWORDS else name
         while lean in self.taken:
             lean += "'"
         self.taken.add(lean)
@@ -675,11 +696,14 @@ class Translator:
         r = norm_ty(fn["ret"])
         if r != "()":
             comps.append(("ret", r))
-        for f in self.fields(fn, "writes"):
-            comps.append((f, self.self_fields[f][1]))
+        if fn["selfk"] != "own":
+            for f in self.fields(fn, "writes"):
+                comps.append((f, self.self_fields[f][1]))
         return comps
 
     def ret_lean(self, fn):
+        if fn["cfg"].get("ret_lean"):
+            return fn["cfg"]["ret_lean"]
         comps = self.ret_components(fn)
         if not comps:
             return "Unit"
@@ -716,6 +740,8 @@ class Translator:
                 return [], n, self.consts[n]
             if n == "None":
                 return [], "none", "Option<?>"
+            if n in ("true", "false"):
+                return [], n, "bool"
             raise Unsupported("unknown name %s" % n)
         if k == "path":
             segs = e[1]
@@ -723,6 +749,12 @@ class Translator:
                 return [], "65535", "u16"
             if segs == ["u8", "MAX"]:
                 return [], "255", "u8"
+            if len(segs) == 2 and segs[0] == "Type":
+                return [], "TYPE_" + segs[1], "u16"
+            if len(segs) == 2 and segs[0] == "Class":
+                return [], "CLASS_" + segs[1], "u16"
+            if len(segs) == 2 and segs[0] == "Section":
+                return [], "Section." + camel(segs[1]), "Section"
             raise Unsupported("path %s" % "::".join(segs))
         f = self.self_field_of(e)
         if f is not None:
@@ -796,6 +828,17 @@ class Translator:
             return pc + [("bind", n, "(if %s then %s else %s)" % (c, wrap(p1, "pure " + t1), wrap(p2, "pure " + t2)))], n, ty
         if k == "tuple":
             raise Unsupported("tuple value")
+        if k == "struct":
+            # a struct value: the tuple of its fields in the order written
+            pre, ts = [], []
+            for fname, fe in e[2]:
+                if fe == ("var", "true") or fe == ("var", "false"):
+                    ts.append(fe[1])
+                    continue
+                p, t, _ = self.expr(fe, env, cx)
+                pre += p
+                ts.append(t)
+            return pre, "(" + ", ".join(ts) + ")", "struct " + e[1][-1]
         if k == "str":
             return [], "()", "str"
         raise Unsupported("expression %s" % k)
@@ -894,6 +937,8 @@ class Translator:
                 old = cx.gensym("old")
                 v = env["self." + fld]
                 return pre + [("let", old, v.lean), ("let", v.lean, t)], old, v.ty
+            if segs[0] == "Compress" and segs[1] in EXTERNAL:
+                return self.call_external(segs[1], args, env, cx)
             if segs[0] in ("Self", "Compress", "DNSSector") and segs[1] in self.fns:
                 return self.call_fn(self.fns[segs[1]], args, env, cx)
             if segs[0] in ("Self", "Compress", "DNSSector") and segs[1] in EXTERNAL:
@@ -1024,7 +1069,7 @@ class Translator:
                 env2, lean = cx.declare(env1, name, vty[0] or "int", mut)
                 return "(let %s := %s;\n%s)" % (lean, v, self.stmts(rest, tail, env2, cx, k))
             want = norm_ty(ty) if ty else None
-            if self.is_ctrl(init):
+            if self.is_ctrl(init) and not self.is_value_if(init):
                 # the type of a control-flow initialiser: that of its first non-diverting value
                 holder = [want]
 
@@ -1038,6 +1083,24 @@ class Translator:
 
     def env_after(self, pre, env):
         return env
+
+    def is_value_if(self, e):
+        """`if c { v1 } else { v2 }` whose branches are plain values (no statements, no control flow)"""
+        if e[0] != "if" or e[3] is None:
+            return False
+        for b in (e[2], e[3]):
+            if b[0] == "if":
+                if not self.is_value_if(b):
+                    return False
+                continue
+            if b[0] != "block" or b[1] or b[2] is None:
+                return False
+            if b[2][0] == "if":
+                if not self.is_value_if(b[2]):
+                    return False
+            elif self.is_ctrl(b[2]):
+                return False
+        return True
 
     def is_ctrl(self, e):
         return e[0] in ("if", "match", "loop", "while", "for", "block", "return", "break", "continue", "assign") or \
@@ -1084,6 +1147,8 @@ class Translator:
             return self.loop(e[1], None, env, cx, k)
         if kind == "while":
             return self.loop(e[2], e[1], env, cx, k)
+        if kind == "for":
+            return self.for_(e, env, cx, k)
         if kind == "assign":
             return self.assign(e, env, cx, k)
         if kind == "call" and e[1][0] == "path" and e[1][1][0] == "BigEndian" and e[1][1][1] in ("write_u16", "write_u32"):
@@ -1100,6 +1165,16 @@ class Translator:
             w = "16" if e[1][1][1] == "write_u16" else "32"
             pv, tv, _ = self.expr(e[2][1], env, cx, "u" + w)
             return wrap(pi + pv, "(writeAt %s %s (put%s %s) >>= fun %s =>\n%s)" % (tgt.lean, ti, w, tv, tgt.lean, k(env, "()")))
+        if kind == "try" and e[1][0] == "mcall" and e[1][2] == "try_for_each" and len(e[1][3]) == 1 \
+                and e[1][3][0][0] == "closure":
+            # `(a..b).try_for_each(|_| f)?`  is  `for _ in a..b { f?; }`
+            rng = e[1][1]
+            while rng[0] == "paren":
+                rng = rng[1]
+            cl = e[1][3][0]
+            if rng[0] == "range" and len(cl[1]) == 1 and cl[1][0][0] == "pwild":
+                body = ("block", [("expr", ("try", cl[2]), True)], None)
+                return self.for_(("for", ("pwild",), rng, body), env, cx, k)
         # plain expression
         pre, t, ty = self.expr(e, env, cx, want_type[0] if want_type else None)
         try:
@@ -1244,7 +1319,7 @@ class Translator:
                 elif tgt[0] == "var":
                     acc.append(tgt[1])
             if e and e[0] in ("mcall",) and e[1] == ("var", "self") and e[2] in self.fns:
-                for f in self.fns[e[2]]["writes"]:
+                for f in self.fields(self.fns[e[2]], "writes"):
                     acc.append("self." + f)
             if e and e[0] == "call" and e[1][0] == "path" and e[1][1][:2] == ["mem", "replace"]:
                 tgt = e[2][0]
@@ -1269,7 +1344,8 @@ class Translator:
         # loop state in the order of first assignment in the body (independent of the names and of the order
         # in which the locals were declared)
         carried = [n for n in dict.fromkeys(acc) if n in env]
-        name = "%s_loop" % fn["lean"] + ("" if not cx.aux else str(len(cx.aux) + 1))
+        cx.nloops = getattr(cx, "nloops", 0) + 1
+        name = "%s_loop" % fn["lean"] + ("" if cx.nloops == 1 else str(cx.nloops))
         outer = cx.loop
         holder = {}
 
@@ -1301,6 +1377,40 @@ class Translator:
         pats1 = ", ".join(["fuel+1"] + [env[n].lean for n in carried])
         cx.aux.append("%s\n  | %s => .diverge\n  | %s =>\n%s" % (sig, pats0, pats1, text))
         return "%s %s (%s) %s" % (name, fixed_args, fuel, " ".join(env[n].lean for n in carried))
+
+    def for_(self, e, env, cx, k):
+        """`for _ in 0..n { body }` : recursion on the number of iterations left"""
+        pat, it, body = e[1], e[2], e[3]
+        if pat[0] != "pwild" or it[0] != "range" or it[1] != ("num", 0, None) or it[2] is None:
+            raise Unsupported("for loop other than `for _ in 0..n`")
+        fn = cx.fn
+        pn, tn, _ = self.expr(it[2], env, cx)
+        acc = []
+        self.assigned(body, acc)
+        carried = [n for n in dict.fromkeys(acc) if n in env]
+        cx.nloops = getattr(cx, "nloops", 0) + 1
+        name = "%s_for%d" % (fn["lean"], cx.nloops)
+        outer = cx.loop
+
+        def again(env1):
+            return "%s FIXED left %s" % (name, " ".join(env1[n].lean for n in carried))
+
+        def after(env1):
+            raise Unsupported("break inside a for loop")
+        cx.loop = {"again": again, "after": after}
+        text = self.cps(body, env, cx, lambda env1, v, vty=None: again(env1))
+        cx.loop = outer
+        done = k(env, "()")
+        both = text + "\n" + done
+        fixed = [n for n in env if n not in carried and re.search(r"(?<![\w'.])%s(?![\w'])" % re.escape(env[n].lean), both)]
+        fixed_args = " ".join(env[n].lean for n in fixed)
+        text = text.replace("%s FIXED left" % name, ("%s %s left" % (name, fixed_args)).replace("  ", " "))
+        sig = "def %s %s : Nat → %s → Res (%s)" % (
+            name, " ".join("(%s : %s)" % (env[n].lean, lean_ty(env[n].ty)) for n in fixed),
+            " → ".join(lean_ty(env[n].ty) for n in carried), self.ret_lean(fn))
+        pats = ", ".join(env[n].lean for n in carried)
+        cx.aux.append("%s\n  | 0, %s =>\n%s\n  | left+1, %s =>\n%s" % (sig, pats, done, pats, text))
+        return wrap(pn, "%s %s %s %s" % (name, fixed_args, tn, " ".join(env[n].lean for n in carried)))
 
     # ---- functions ----
     def function(self, fname):
@@ -1371,7 +1481,7 @@ def render(defs_text):
         while i < len(lines) and (lines[i].startswith("def ") or lines[i].startswith("  | ")):
             head.append(lines[i])
             i += 1
-            if head[-1].startswith("  | fuel+1") or (head[-1].startswith("def ") and head[-1].endswith(":=")):
+            if head[-1].startswith("  | fuel+1") or head[-1].startswith("  | 0, ") or (head[-1].startswith("def ") and head[-1].endswith(":=")):
                 break
         blocks.append("\n".join(head) + "\n" + indent("\n".join(lines[i:])))
     return "\n\n".join(blocks)
@@ -1396,18 +1506,37 @@ GROUPS = {
     ),
     "Sector": dict(
         self_fields={"packet": ("packet", "bytes"), "offset": ("offset", "usize"),
-                     "edns_end": ("edns_end", "Option<usize>")},
+                     "edns_start": ("edns_start", "Option<usize>"), "edns_end": ("edns_end", "Option<usize>"),
+                     "edns_count": ("edns_count", "u16"), "ext_rcode": ("ext_rcode", "Option<u8>"),
+                     "edns_version": ("edns_version", "Option<u8>"), "ext_flags": ("ext_flags", "Option<u16>"),
+                     "max_payload": ("max_payload", "usize")},
+        imports=["DnsModel.Sector", "DnsModel.Generated.TrName"],
+        externals={"check_compressed_name": ("Tr.Name.check_compressed_name", "usize"),
+                   "check_uncompressed_name": ("Tr.Name.check_uncompressed_name", "usize")},
         fns=[dict(file="src/dns_sector.rs", impl="DNSSector", fn=f) for f in
              ["is_response", "qdcount", "ancount", "nscount", "arcount", "remaining_len", "ensure_remaining_len",
               "set_offset", "increment_offset", "u8_load", "be16_load", "rr_type", "rr_class", "rr_rdlen",
               "edns_remaining_len", "edns_ensure_remaining_len", "edns_increment_offset", "edns_be16_load",
-              "edns_rr_rdlen"]],
+              "edns_rr_rdlen"]] +
+            [dict(file="src/dns_sector.rs", impl="DNSSector", fn="check_compressed_name", lean="check_compressed_name_at")] +
+            [dict(file="src/dns_sector.rs", impl="DNSSector", fn=f) for f in
+             ["skip_name", "ensure_in_class", "parse_question", "opt_rr_max_payload", "opt_rr_ext_rcode",
+              "opt_rr_edns_version", "opt_rr_edns_ext_flags", "opt_rr_rdlen", "edns_skip_rr"]] +
+            [dict(file="src/dns_sector.rs", impl="DNSSector", fn="new",
+                  ret_lean="Bytes × Nat × Option Nat × Option Nat × Nat × Option Nat × Option Nat × Option Nat × Nat")] +
+            [dict(file="src/dns_sector.rs", impl="DNSSector", fn="parse_opt",
+                  fuel="edns_len / DNS_EDNS_RR_HEADER_SIZE + 2"),
+             dict(file="src/dns_sector.rs", impl="DNSSector", fn="parse_rr"),
+             dict(file="src/dns_sector.rs", impl="DNSSector", fn="parse",
+                  ret_lean="Option Bytes × Option Nat × Option Nat × Option Nat × Option Nat × Option Nat × "
+                           "Option Nat × Option Nat × Option Nat × Nat × Bool × Nat × Option Unit")],
     ),
 }
 
 PRELUDE = """-- GENERATED by rs2lean.py from /repo/%s — do not edit; rewritten on every run.
 import DnsModel.Basic
 import DnsModel.Generated.Constants
+%s
 set_option linter.unusedVariables false
 namespace Dns.Tr.%s
 """
@@ -1421,6 +1550,8 @@ def checked (bound v : Nat) : Res Nat := if v < bound then .ok v else .panic
 def translate_group(gname):
     g = GROUPS[gname]
     tr = Translator(gname, g["self_fields"])
+    EXTERNAL.clear()
+    EXTERNAL.update(g.get("externals", {}))
     for cfg in g["fns"]:
         tr.add(cfg)
     tr.analyse()
@@ -1431,7 +1562,7 @@ def translate_group(gname):
     for f in tr.order:
         defs.append(render(tr.function(f)))
     files = sorted({c["file"] for c in g["fns"]})
-    return PRELUDE % (", ".join(files), gname) + SUPPORT + "\n" + "\n\n".join(defs) + "\n\nend Dns.Tr.%s\n" % gname
+    return PRELUDE % (", ".join(files), "\n".join("import " + m for m in g.get("imports", [])), gname) + SUPPORT + "\n" + "\n\n".join(defs) + "\n\nend Dns.Tr.%s\n" % gname
 
 
 def main():
